@@ -117,8 +117,10 @@ mod future {
     #[derive(Debug)]
     #[pin_project]
     pub struct TimeoutFuture<F, R, E> {
+        // `None` once the inner future has completed or the timeout has expired: the inner work
+        // is dropped at that moment, not when this future eventually is.
         #[pin]
-        inner: F,
+        inner: Option<F>,
         error: Box<fn() -> E>,
         response: PhantomData<fn() -> R>,
 
@@ -129,7 +131,7 @@ mod future {
     impl<F, R, E> TimeoutFuture<F, R, E> {
         pub fn new(inner: F, error: Box<fn() -> E>, timeout: std::time::Duration) -> Self {
             Self {
-                inner,
+                inner: Some(inner),
                 error,
                 response: PhantomData,
                 timeout: tokio::time::sleep(timeout),
@@ -147,15 +149,20 @@ mod future {
             self: std::pin::Pin<&mut Self>,
             cx: &mut std::task::Context<'_>,
         ) -> Poll<Self::Output> {
-            let this = self.project();
+            let mut this = self.project();
 
-            match this.inner.poll(cx) {
-                Poll::Ready(response) => return Poll::Ready(response),
-                Poll::Pending => {}
+            if let Some(inner) = this.inner.as_mut().as_pin_mut() {
+                if let Poll::Ready(response) = inner.poll(cx) {
+                    this.inner.set(None);
+                    return Poll::Ready(response);
+                }
             }
 
             match this.timeout.poll(cx) {
-                Poll::Ready(()) => Poll::Ready(Err((this.error)())),
+                Poll::Ready(()) => {
+                    this.inner.set(None);
+                    Poll::Ready(Err((this.error)()))
+                }
                 Poll::Pending => Poll::Pending,
             }
         }
